@@ -47,7 +47,9 @@ PARTIAL = {
     'carried_properties': 'per-atom properties, symbols, masses and pbc are not part of the model (it has the box, pbc '
                           'and positions only); that wrap / normalize hand them on bit for bit (vector and tensor '
                           'properties are NOT rotated by normalize: neither the docstring nor the property asks for it) '
-                          'is checked on the implementation in every run',
+                          'is checked on the implementation in every run (round 5: under property names drawn from a pool '
+                          'of short / reserved-looking / non-identifier names, with scalar, vector, string and degenerate '
+                          '(1,), (1,1) per-atom shapes)',
     'setter_clean_up': 'the "zero out near zero terms" step of the Box.vects setter (components below 1e-9 of the '
                        'largest one are set to 0) is part of the object-level model (zeroSmall) and of the '
                        'correspondence, but the wrap_*/normalize_* theorems are about the functional model without it: '
@@ -95,6 +97,19 @@ RULE = ('wrap: cells = products of dyadic shears/permutations/diagonal powers of
         'setter) between wraps / normalizes, with atoms moved out of the cell again in between, setpbc in tuple / list / int / '
         'bool-array / int-array form; getters read in histories are compared with exact values (lengths, angles by atan2 of '
         'the exact cross and dot products, volume, is_lammps_norm decided on the numbers). '
+        'round 5 (counts / thresholds / names): every system carries, besides charge / spin / tag / stress, four extra per-atom '
+        'properties whose NAMES come from a pool of 64 (substrings and superstrings of the reserved keys atype / pos and of '
+        'their concatenation, case variants, names of attributes / methods / arguments on the call path, non-identifiers, '
+        'the empty name) and whose values are float / int / bool / string scalars, vectors and the degenerate per-atom shapes '
+        '(1,), (1,1), (1,3), (3,1) (a function of the case, recorded in the replay); large systems of 2^k-1, 2^k, 2^k+1 atoms '
+        '(k = 10..16 all three, 17 one of them), one of about 70 000 and one of about 270 000 atoms per quick run (thorough: '
+        'also 2^18-1 .. 2^18+1, 2^19+1, about 530 000, 786 433, 4.5 x 65536) - positions a function of a short specification: '
+        'lattice sites of a (super)cell on the grid or in a float cell, a rigid shift, per-atom whole-cell offsets from a hash '
+        'of the row (0 .. 70 000 cells; along one periodic direction EVERY row needs a non-zero flag), six atoms that stick out '
+        'beyond all others - through wrap (any periodicity) and normalize (both entry points) with the per-atom clauses screened '
+        'on ALL rows in extended precision (half the derived bound; exact on the grid) and decided exactly on the flagged rows '
+        'and on ~100 sampled rows (ends, rows around every power of two and every multiple of 65536); the flags '
+        'return_imageflags / return_transform also as 1 / numpy.True_ / 0 / numpy.False_. '
         'distinct = distinct canonical driver line; '
         'non-trivial = at least one atom outside the cell or a left-handed/non-normal cell')
 ASSUMPTIONS = [
@@ -255,14 +270,72 @@ def _over(name, err, bound):
 # ----------------------------------------------------------------------------------------
 # building systems
 # ----------------------------------------------------------------------------------------
-def _props(n):
+# names of the extra per-atom properties a system carries besides charge / spin / tag / stress: short names that are
+# substrings of the reserved keys 'atype' / 'pos' (and of their concatenation), superstrings and case variants of them,
+# names that are attributes / methods of Atoms, System or Box, argument names of the calls on the path, non-identifiers,
+# underscore names, the empty name.  (Not in the pool: natoms, prop, model, safecopy, self - the constructor's own
+# arguments, which Atoms(**kwargs) cannot take as property names.)
+NAMEPOOL = ('e', 'p', 'a', 't', 's', 'o', 'y', 'ty', 'typ', 'type', 'ype', 'yp', 'ep', 'pe', 'po', 'os', 'tp', 'atyp',
+            'typepos', 'atypepos', 'epos', 'atypes', 'apos', 'pos0', 'spos', 'position', 'atype_', '_atype', 'Pos', 'ATYPE',
+            'POS', 'x', 'id', 'a_id', '_g', '__d__', 'a-b', '2x', 'x.y', 'pbc', 'box', 'atoms', 'vects', 'origin', 'symbols',
+            'masses', 'view', 'key', 'd', 'index', 'value', 'scale', 'dtype', 'style', 'return_transform', 'natypes', 'df',
+            'keys', 'items', 'prop_atype', '', 'kwargs', 'atype pos', "atype', 'pos")
+NEXTRA = 4            # names per system
+# value kinds of the extra properties (by position of the name in the pool + number of atoms): float / int / bool /
+# string scalars, vectors, and the degenerate per-atom shapes (1,), (1, 1), (1, 3), (3, 1)
+XKINDS = ('f', 'i', 'v3', 'b', 'U', 't1', 't11', 'f', 't13', 't31', 'i')
+
+
+def _case_names(case):
+    """the extra property names of a case: a function of the case itself (so a replay builds the same system), every
+    name of the pool is used a few times per hundred cases."""
+    if case.get('names') is not None:
+        return tuple(case['names'])
+    import zlib
+    p0 = case['pos'][0]
+    h = zlib.crc32(repr(([bool(x) for x in case['pbc']], len(case['pos']), [float(x) for x in p0],
+                         [float(x) for x in case['origin']])).encode())
+    m = len(NAMEPOOL)
+    start, step = h % m, 1 + (h // m) % (m - 1)
+    # (m is not required to be prime: repeated names are dropped)
+    out = []
+    for j in range(NEXTRA):
+        nm = NAMEPOOL[(start + j * step) % m]
+        if nm not in out:
+            out.append(nm)
+    return tuple(out)
+
+
+def _extra_value(name, n):
     import numpy as np
-    return {'atype': np.array([1 + 2 * ((i * 7) % 2) for i in range(n)]),       # types 1 and 3: a gap
-            'charge': np.array([0.25 * i - 1.0 for i in range(n)]),
-            'spin': np.array([[i + 0.5, -i, 2.0 * i] for i in range(n)]),
-            'tag': np.array([100 + 3 * i for i in range(n)], dtype=int),
-            # a per-atom tensor: carried bit for bit (normalize rotates neither vectors nor tensors)
-            'stress': np.array([[[i + j - 0.5 * k for k in range(3)] for j in range(3)] for i in range(n)], dtype=float)}
+    k = XKINDS[(NAMEPOOL.index(name) + n) % len(XKINDS)] if name in NAMEPOOL else 'f'
+    i = np.arange(n)
+    if k == 'f':
+        return 0.125 * i - 3.5 - len(name)
+    if k == 'i':
+        return (7 * i - 11 + len(name)).astype(int)
+    if k == 'b':
+        return (i + len(name)) % 3 == 0
+    if k == 'U':
+        return np.array(['Al', 'q', '', 'xyz'])[(i + len(name)) % 4]
+    shape = {'v3': (3,), 't1': (1,), 't11': (1, 1), 't13': (1, 3), 't31': (3, 1)}[k]
+    m = int(np.prod(shape))
+    return (i[:, None] * 0.5 + np.arange(m)[None, :] - 0.25 * len(name)).reshape((n,) + shape)
+
+
+def _props(n, names=()):
+    import numpy as np
+    i = np.arange(n)
+    jk = np.arange(3)[:, None] - 0.5 * np.arange(3)[None, :]
+    d = {'atype': 1 + 2 * ((i * 7) % 2),                                          # types 1 and 3: a gap
+         'charge': 0.25 * i - 1.0,
+         'spin': np.stack([i + 0.5, -1.0 * i, 2.0 * i], axis=1) if n else np.zeros((0, 3)),
+         'tag': (100 + 3 * i).astype(int),
+         # a per-atom tensor: carried bit for bit (normalize rotates neither vectors nor tensors)
+         'stress': i[:, None, None] + jk[None, :, :]}
+    for nm in names:
+        d[nm] = _extra_value(nm, n)
+    return d
 
 
 POSFORMS = ('f64', 'list', 'tuple', 'pyint', 'int64', 'int32', 'f32', 'fortran', 'strided', 'readonly')
@@ -325,9 +398,10 @@ def _build(case):
     import numpy as np
     import atomman as am
     pos = np.array(case['pos'], dtype=float).reshape(-1, 3)
-    pr = _props(len(pos))
-    atoms = am.Atoms(atype=pr['atype'], pos=_pos_arg(pos, case.get('posform')), charge=pr['charge'].copy(),
-                     spin=pr['spin'].copy(), tag=pr['tag'].copy(), stress=pr['stress'].copy())
+    names = _case_names(case)
+    case['names'] = list(names)                  # (recorded in the case: a replay file shows which names were carried)
+    pr = _props(len(pos), names)
+    atoms = am.Atoms(atype=pr.pop('atype'), pos=_pos_arg(pos, case.get('posform')), **{k: v.copy() for k, v in pr.items()})
     V, o = np.array(case['vects'], dtype=float), np.array(case['origin'], dtype=float)
     bf = case.get('boxform')
     if bf == 'list':
@@ -369,7 +443,8 @@ def _same_snap(a, b, skip=()):
     if a['natoms'] != b['natoms']:
         bad.append('natoms')
     if set(a['props']) != set(b['props']):
-        bad.append('property keys')
+        bad.append('property keys (missing %s, new %s)' % (sorted(set(a['props']) - set(b['props'])),
+                                                           sorted(set(b['props']) - set(a['props']))))
     for k in a['props']:
         if k in skip or k not in b['props']:
             continue
@@ -668,6 +743,118 @@ def _hairline_case(rng, pbc):
         pos.append(p.tolist())
     return _canon_case({'vects': V.tolist(), 'origin': o.tolist(), 'pbc': list(pbc), 'pos': pos, 'regime': 'float',
                         'kind': kind, 'hairline': True})
+
+
+# ---- large systems: counts and thresholds ------------------------------------------------------------------------
+# Anything that handles the rows of a system in blocks, or switches to another code path above a size, shows only when the
+# number of atoms crosses that size and is not a multiple of it: systems of 2^k - 1 / 2^k / 2^k + 1 atoms and of
+# "ordinary" sizes in between, up to a few hundred thousand atoms (quick: one of about 70 000 and one of about 270 000;
+# thorough: also about 530 000 and 800 000).  The positions of such a system are a FUNCTION of a short specification
+# (`_big_case`), which is what a replay file stores.
+BIG_CELLS = (0, 1, 3, 3, 40, 70000)
+
+
+def _big_sizes(rng, thorough):
+    sizes = [2 ** k + d for k in range(10, 17) for d in (-1, 0, 1)] + [2 ** 17 + rng.choice([-1, 0, 1])]
+    sizes += [rng.randint(68000, 72000), rng.choice([2 ** 18 + 1, 2 ** 18 + rng.randint(2, 9000), 264600])]
+    if thorough:
+        sizes += [2 ** 17 + d for d in (-1, 0, 1)]
+        sizes += [2 ** 18 - 1, 2 ** 18, 2 ** 18 + 1, 2 ** 19 + 1, 2 * 2 ** 18 + rng.randint(2, 9000), 3 * 2 ** 18 + 1,
+                  4 * 65536 + 65536 // 2]
+    return sizes
+
+
+def _big_spec(rng, n, regime, pbc, c=None):
+    import numpy as np
+    if regime == 'grid':
+        V = _grid_cell(rng)
+        o = [0.0, 0.0, 0.0] if rng.random() < 0.3 else [cm.dyadic(rng, -8, 8, 2) for _ in range(3)]
+        dims = [rng.choice([32, 64, 128]) for _ in range(3)]
+        shift = [rng.choice([0, 0, 1, -3, 5, 512]) / 1024 for _ in range(3)]
+        kind = 'grid'
+    else:
+        # a supercell of a small (slightly to strongly) triclinic cell, any orientation / handedness
+        Vu, kind = _float_cell(rng)
+        m = max(2, round((n / 2) ** (1 / 3)))
+        dims = [max(2, m + rng.randint(-3, 3)) for _ in range(3)]
+        V = np.diag([float(x) for x in dims]) @ Vu
+        o = np.zeros(3) if rng.random() < 0.25 else np.array([rng.uniform(-10, 10) for _ in range(3)])
+        shift = [rng.choice([0.0, 0.013, -0.021, 0.5, rng.uniform(-1, 1)]) for _ in range(3)]
+    box_clean = _canon_case({'vects': np.asarray(V).tolist(), 'origin': np.asarray(o).tolist(), 'pbc': list(pbc), 'pos': []})
+    # per-atom whole-cell offsets -c .. c plus a rigid whole-cell shift; along one periodic direction (if there is one) the
+    # rigid shift is +-(c + 1), so that EVERY row of the system needs a non-zero image flag there (a block of rows that is
+    # skipped, handled twice or given another block's flags cannot hide behind atoms that happen to be inside already)
+    c = rng.choice(BIG_CELLS) if c is None else c
+    rigid = [rng.choice([0, 0, 1, -1, 2]) for _ in range(3)]
+    per = [k for k in range(3) if pbc[k]]
+    if per:
+        rigid[rng.choice(per)] = rng.choice([-1, 1]) * (c + 1)
+    # a handful of atoms that stick out: along every direction one atom below and one above all the others (adatoms of a
+    # slab, a stray atom): along a non-periodic direction these single rows decide how far the cell is enlarged
+    outliers = [[rng.randrange(n), k, sgn] for k in range(3) for sgn in (-1, 1)]
+    return {'n': int(n), 'regime': regime, 'kind': kind, 'vects': box_clean['vects'], 'origin': box_clean['origin'],
+            'pbc': [bool(x) for x in pbc], 'dims': [int(x) for x in dims], 'shift': [float(x) for x in shift],
+            'salt': rng.randint(1, 2 ** 30), 'cells': c, 'rigid': rigid, 'outliers': outliers}
+
+
+def _big_case(spec):
+    """the case of a specification: atom i sits at lattice site (i mod nx, (i div nx) mod ny, (i div nx ny) mod nz) / dims
+    of basis (i div nx ny nz) / 2, shifted rigidly by `shift` and, atom by atom, by a whole number of cells in
+    rigid - cells .. rigid + cells along every direction (a hash of i: neighbouring rows get different image flags)."""
+    import numpy as np
+    n = spec['n']
+    nx, ny, nz = spec['dims']
+    i = np.arange(n, dtype=np.int64)
+    idx = np.stack([i % nx, (i // nx) % ny, (i // (nx * ny)) % nz], axis=1)
+    basis = (i // (nx * ny * nz))
+    c = spec['cells']
+    salt = spec['salt']
+    cax = [c if spec['pbc'][k] else min(c, 3) for k in range(3)]       # (moderate along directions that get padded)
+    cells = np.stack([((i * m + salt) >> 7) % (2 * cax[k] + 1) - cax[k]
+                      for k, m in enumerate((2654435761, 40503, 2246822519))], axis=1) \
+        + np.array(spec.get('rigid', [0, 0, 0]), dtype=np.int64)
+    for row, k, sgn in spec.get('outliers', []):
+        cells[row, k] = spec.get('rigid', [0, 0, 0])[k] + sgn * (cax[k] + 2)
+    V, o = np.array(spec['vects'], dtype=float), np.array(spec['origin'], dtype=float)
+    if spec['regime'] == 'grid':
+        # exact integer arithmetic in units of 2^-11 (relative coordinates) and 2^-q (cell entries)
+        rel = idx * (2048 // np.array([nx, ny, nz])) + (basis[:, None] % 4) * 256 // np.array([nx, ny, nz]) \
+            + cells * 2048 + np.array([int(round(x * 2048)) for x in spec['shift']])
+        q = 0
+        while not np.array_equal(V * 2 ** q, np.round(V * 2 ** q)) or not np.array_equal(o * 2 ** q, np.round(o * 2 ** q)):
+            q += 1
+            if q > 40:
+                raise cm.InfraError('grid cell is not dyadic')
+        posI = rel @ np.round(V * 2 ** q).astype(np.int64) + np.round(o * 2 ** q).astype(np.int64) * 2048
+        pos = posI.astype(float) / (2048.0 * 2 ** q)
+        if not np.array_equal((pos * (2048.0 * 2 ** q)).astype(np.int64), posI):
+            raise cm.InfraError('large grid case is not exactly representable')
+    else:
+        rel = (idx + 0.5 * (basis[:, None] % 2) + 0.25 * (basis[:, None] // 2)) / np.array([nx, ny, nz], dtype=float) \
+            + cells + np.array(spec['shift'])
+        pos = rel @ V + o
+    case = {'vects': V.tolist(), 'origin': o.tolist(), 'pbc': list(spec['pbc']), 'pos': pos, 'regime': spec['regime'],
+            'kind': spec.get('kind'), 'big': spec}
+    for k in ('ret', 'names'):
+        if k in spec:
+            case[k] = spec[k]
+    return case
+
+
+def _big_label(op, spec):
+    return (f"{op} big n={spec['n']} {spec['regime']}/{spec.get('kind')} pbc {''.join('1' if p else '0' for p in spec['pbc'])} "
+            f"dims {spec['dims']} cells {spec.get('rigid')}+-{spec['cells']} salt {spec['salt']}")
+
+
+def _replay_of(op, case):
+    """what a replay file stores for a case: large systems by their specification."""
+    if case.get('big') is not None:
+        spec = dict(case['big'])
+        for k in ('ret', 'names'):
+            if case.get(k) is not None:
+                spec[k] = case[k]
+        return {'op': op, 'big': spec}
+    return {'op': op, 'case': case}
 
 
 def _singular_case(rng, pbc):
@@ -1199,25 +1386,9 @@ def _apply(system, c):
     if k == 'peek':
         return _peek(system, c['what'])
     if k == 'wrap':
-        ret = c.get('ret', 'kw')
-        if ret == 'kw':
-            return system.wrap(return_imageflags=True)
-        if ret == 'pos':
-            return system.wrap(True)
-        if ret == 'false':
-            return system.wrap(return_imageflags=False)
-        return system.wrap()
+        return _call_wrap(system, c.get('ret', 'kw'))
     if k == 'norm':
-        ret = c.get('ret', 'kw')
-        if ret == 'kw':
-            return system.normalize(return_transform=True)
-        if ret == 'style':
-            return system.normalize('lammps', True)
-        if ret == 'fn':
-            return am.lammps.normalize(system, True)
-        if ret == 'fnnone':
-            return am.lammps.normalize(system), None
-        return system.normalize(), None
+        return _call_norm(system, c.get('ret', 'kw'))
     if k == 'rebuild':
         b = system.box
         return system.box_set(a=b.a, b=b.b, c=b.c, alpha=b.alpha, beta=b.beta, gamma=b.gamma, scale=True)
@@ -1547,7 +1718,7 @@ def _check_step(ctx, h, k, rec, sec):
         mpos = _chunks3([F(t) for t in parts[1]])
         mflags = _chunks3([int(t) for t in parts[2]])
         spos = _chunks3([F(t) for t in parts[3]])
-        wantflags = c.get('ret', 'kw') in ('kw', 'pos')
+        wantflags = c.get('ret', 'kw') in WANTS_FLAGS
         if not wantflags:
             if rec['obs'] is not None:
                 return dis('flags-returned', f'wrap() without return_imageflags returned {type(rec["obs"]).__name__}')
@@ -1666,7 +1837,7 @@ def _check_norm_step(ctx, h, k, rec, parts, label, replay, kap):
     mT = [F(t) for t in parts[3]]
     spos = _chunks3([F(t) for t in parts[4]])
     full = all(pbc)
-    if not res.is_system or (T is None) != (rec['c'].get('ret', 'kw') in ('none', 'fnnone')):
+    if not res.is_system or (T is None) != (rec['c'].get('ret', 'kw') in NO_TRANSFORM):
         return dis('return', f'normalize ({rec["c"].get("ret", "kw")}) returned the wrong kind of result')
     es = [_es(kap, max(abs(float(x)) for x in s), CN * kap) for s in spos]
     exempt = [{j for j in range(3) if pbc[j] and abs(float(s[j] - _nearint(s[j]))) <= es[i]} for i, s in enumerate(spos)]
@@ -1800,6 +1971,30 @@ def _box_op(rng, regime, kind, far=False):
         return {'op': 'setvects', 'right': _strain(rng, lower)}
     return {'op': 'boxset', 'right': _strain(rng, lower), 'scale': scale, 'how': how if lower else
             ('avect' if how == 'lengths' else how), 'origin': og}
+
+
+# how the flags of the two calls are given: keyword / positional / left out / False, and - round 5 - as an integer or a
+# numpy boolean (a flag is a truth value: 1 and numpy.True_ ask for the image flags / the transformation, 0 and
+# numpy.False_ do not)
+RETS_W = ('kw', 'pos', 'none', 'false')
+RETS_N = ('kw', 'style', 'fn', 'none', 'fnnone')
+RETS_W_ALL = RETS_W + ('int1', 'nptrue', 'int0', 'npfalse')
+RETS_N_ALL = RETS_N + ('int1', 'nptrue', 'fnint1', 'int0', 'fnnpfalse')
+WANTS_FLAGS = ('kw', 'pos', 'int1', 'nptrue')
+NO_TRANSFORM = ('none', 'fnnone', 'int0', 'fnnpfalse')
+
+
+def _flag_forms(h, it):
+    """every other history: the flags of its wrap / normalize steps as integers / numpy booleans (same meaning)."""
+    if it % 2:
+        for j, c in enumerate(h['ops']):
+            r = c.get('ret', 'kw')
+            if c['op'] == 'wrap':
+                c['ret'] = {'kw': ('int1', 'nptrue')[(it // 2 + j) % 2], 'false': ('int0', 'npfalse')[(it // 2 + j) % 2]}.get(r, r)
+            elif c['op'] == 'norm':
+                c['ret'] = {'kw': ('int1', 'nptrue')[(it // 2 + j) % 2], 'fn': 'fnint1',
+                            'none': ('int0', 'none')[(it // 2 + j) % 2], 'fnnone': ('fnnpfalse', 'fnnone')[(it // 2 + j) % 2]}.get(r, r)
+    return h
 
 
 def _gen_hist(rng, regime):
@@ -1995,15 +2190,26 @@ def correspond(ctx):
         extra_n.append(_float_case(rng, (True, True, True), cell=(_extreme_cell(rng, it % 3, it % 2 == 0), 'extreme')))
     norm_cases += extra_n
     _corr_norm(ctx, norm_cases)
+    # counts and thresholds: the model on systems of 2^k + 1 atoms too (the Lean functions map over the list of atoms: any
+    # number); on the grid, so flags, positions and boxes are compared exactly.  Larger systems: search only.
+    big_w, big_n = [], []
+    for it, n in enumerate(ctx.n([1025, 4097], [1023, 1025, 2049, 4097, 8193, 16385])):
+        for pbc, dest in ((rng.choice(PBCS), big_w), ((True, True, True), big_n)):
+            case = _big_case(_big_spec(rng, n, 'grid', pbc, BIG_CELLS[(it + 1) % 5]))
+            case['pos'] = case['pos'].tolist()          # (a replay file of this size is still readable: < 1 MB)
+            del case['big']
+            dest.append(case)
+    _corr_wrap(ctx, big_w)
+    _corr_norm(ctx, big_n)
     # histories on one object: the hidden state (cached reciprocal vectors) must never show
-    hists = [_gen_hist(rng, 'grid' if it % 3 == 0 else 'float') for it in range(ctx.n(150, 2500))]
+    hists = [_flag_forms(_gen_hist(rng, 'grid' if it % 3 == 0 else 'float'), it) for it in range(ctx.n(150, 2500))]
     # the periodicity setting edited in place between wraps
-    hists += [_gen_pbc_hist(rng, 'grid' if it % 2 == 0 else 'float') for it in range(ctx.n(60, 800))]
+    hists += [_flag_forms(_gen_pbc_hist(rng, 'grid' if it % 2 == 0 else 'float'), it // 2) for it in range(ctx.n(60, 800))]
     # the single calls above once more as one- and two-step histories: compared with the object-level model (which
     # includes the clean-up of the setter) at the derived rounding bound instead of the 1e-9 of the single-call path
-    hists += [{'case': dict(c), 'ops': [{'op': 'wrap', 'ret': RETS_W[i % 4]}, {'op': 'wrap'}]}
+    hists += [{'case': dict(c), 'ops': [{'op': 'wrap', 'ret': RETS_W_ALL[i % 8]}, {'op': 'wrap'}]}
               for i, c in enumerate(wrap_cases) if c.get('kind') != 'singular']
-    hists += [{'case': dict(c), 'ops': [{'op': 'norm', 'ret': RETS_N[i % 5]}]}
+    hists += [{'case': dict(c), 'ops': [{'op': 'norm', 'ret': RETS_N_ALL[i % 10]}]}
               for i, c in enumerate(norm_cases) if c.get('kind') != 'singular']
     _corr_hist(ctx, hists)
 
@@ -2027,11 +2233,111 @@ def _inside_nonperiodic(rng, case):
 SEPS32 = 2.0 ** -23            # one float32 rounding of a stored coordinate (relative)
 
 
+BIG_N = 512           # systems with more atoms: per-atom clauses screened on all rows at once, exact on flagged + sampled rows
+
+
+def _ld(x):
+    import numpy as np
+    return np.asarray(x, dtype=np.longdouble)
+
+
+def _ld_fr(M):
+    """a matrix of Fractions as extended-precision floats (head + tail: no detour through a rounded double)."""
+    import numpy as np
+    hi = [[float(x) for x in r] for r in M]
+    lo = [[float(x - F(h)) for x, h in zip(r, rh)] for r, rh in zip(M, hi)]
+    return _ld(hi) + _ld(lo)
+
+
+def _sample_rows(n):
+    """rows of a large system on which the per-atom clauses are evaluated exactly whatever the screening says: both ends,
+    32 evenly spread rows, and the rows around every power of two / multiple of 65536 (where a block would end)."""
+    rows = {0, 1, 2, n - 1, n - 2, n - 3}
+    rows |= {(j * n) // 32 for j in range(32)}
+    k = 1024
+    while k <= n:
+        rows |= {k - 1, k, k + 1}
+        k *= 2
+    for m in range(65536, n + 1, 65536):
+        rows |= {m - 1, m, m + 1}
+    return sorted(i for i in rows if 0 <= i < n)
+
+
+def _flagged(mask, keep=4):
+    import numpy as np
+    idx = np.nonzero(np.asarray(mask))[0]
+    return [int(i) for i in idx[:keep]] + [int(i) for i in idx[-1:]]
+
+
+def _screen_wrap(P0, P1, flags, before, system, Vi, NVi, pbc, grid, seps, b):
+    """the per-atom wrap clauses of _wrap_clauses_sys on every row (numpy, extended precision).  Returns the rows that
+    come within HALF a bound of violating one of them (on the grid: that violate it at all - every operation is exact
+    there), the largest |relative coordinate| and the largest fraction of each bound used."""
+    import numpy as np
+    half = 0.5
+    V, o = _ld(before['vects']), _ld(before['origin'])
+    NV, no = _ld(system.box.vects), _ld(system.box.origin)
+    A0, A1 = _ld(P0), _ld(P1)
+    Fl = np.asarray(flags, dtype=np.int64)
+    Vil, NVil = _ld_fr(Vi), _ld_fr(NVi)
+    s0 = (A0 - o) @ Vil
+    smax = np.asarray(np.abs(s0).max(axis=1), dtype=float)
+    stor = seps * np.asarray(np.abs(A1).max(axis=1), dtype=float)
+    tol = (CS * b['kap'] + 8.0) * U * (1.0 + smax) * b['nV'] + 8.0 * U * b['omax'] + stor                # _ep
+    er0 = (CS + 8.0) * U * b['kap'] * (1.0 + smax) + 8.0 * U * b['omax'] * b['rinv']                      # _er
+    rtol = er0 + stor * b['rinv']
+    out = []
+    nonper = [k for k in range(3) if not pbc[k]]
+    if nonper:
+        out += _flagged((Fl[:, nonper] != 0).any(axis=1))
+    err = np.asarray(np.abs(A1 + _ld(Fl) @ V - A0).max(axis=1), dtype=float)
+    out += _flagged((err != 0) if grid else (err > half * tol))
+    d = (A0 - A1) @ Vil
+    want = np.rint(d)
+    want[:, nonper] = 0
+    off = np.asarray(np.abs(d - want).max(axis=1), dtype=float)
+    out += _flagged((off != 0) if grid else (off > half * rtol))
+    sn = (A1 - no) @ NVil
+    if grid and all(pbc):
+        stol = np.zeros(len(smax))
+    else:
+        stol = er0 + ((CS + 8.0) * U * b['kapN'] * 2.0 + 8.0 * U * b['omaxN'] * b['rinvN']) + b['clean'] + stor * b['rinvN']
+    outside = np.asarray(np.maximum(-sn, sn - 1).max(axis=1), dtype=float)
+    out += _flagged(outside > half * stol)
+    for name, val, bound in (('wrap:reconstruct', err, tol), ('wrap:non-lattice-move', off, rtol), ('wrap:outside', outside, stol)):
+        ok = bound > 0
+        if ok.any():
+            r = float((val[ok] / bound[ok]).max())
+            if r > MARGIN.get('big:' + name, 0.0):
+                MARGIN['big:' + name] = r
+    return {'rows': sorted(set(out)), 'sall': float(smax.max())}
+
+
+def _screen_norm(P0, P1, o, Vi, no, Ni, seps, b):
+    """the per-atom normalize clauses (inside the new cell; relative coordinates kept modulo 1) on every row; returns the
+    rows within half a bound of a violation."""
+    import numpy as np
+    A0, A1 = _ld(P0), _ld(P1)
+    s0 = (A0 - _ld(o)) @ _ld_fr(Vi)
+    s1 = (A1 - _ld(no)) @ _ld_fr(Ni)
+    smax = np.asarray(np.abs(s0).max(axis=1), dtype=float)
+    er0 = (CS + 8.0) * U * b['kap'] * (1.0 + smax) + 8.0 * U * b['omax'] * b['rinv']
+    stol = 4 * er0 + seps * 3 * b['sc'] * b['cNi'] + seps * np.asarray(np.abs(A0).max(axis=1), dtype=float) * b['rinv']
+    outside = np.asarray(np.maximum(np.maximum(-s1, s1 - 1), 0).max(axis=1), dtype=float)
+    dk = s0 - s1
+    moved = np.asarray(np.abs(dk - np.rint(dk)).max(axis=1), dtype=float)
+    for name, val in (('normalize:outside', outside), ('normalize:moved', moved)):
+        r = float((val / stol).max())
+        if r > MARGIN.get('big:' + name, 0.0):
+            MARGIN['big:' + name] = r
+    return sorted(set(_flagged(outside > 0.5 * stol) + _flagged(moved > 0.5 * stol)))
+
+
 def _wrap_clauses(ctx, case, report=True):
     """returns the first violated clause (key, text) or None."""
     def fail(key, what):
         if report:
-            ctx.violate(key, what, {'op': 'wrap', 'case': case})
+            ctx.violate(key, what, _replay_of('wrap', case))
         return key, what
 
     f32 = case.get('posform') == 'f32'
@@ -2062,12 +2368,22 @@ def _box_as_asked(system, case):
 
 
 def _call_wrap(system, ret):
+    import numpy as np
     if ret == 'kw':
         return system.wrap(return_imageflags=True)
     if ret == 'pos':
         return system.wrap(True)
     if ret == 'false':
         return system.wrap(return_imageflags=False)
+    # the flag as an integer / numpy boolean (truthy and falsy non-bool values are flags like True and False)
+    if ret == 'int1':
+        return system.wrap(return_imageflags=1)
+    if ret == 'nptrue':
+        return system.wrap(np.True_)
+    if ret == 'int0':
+        return system.wrap(return_imageflags=0)
+    if ret == 'npfalse':
+        return system.wrap(return_imageflags=np.False_)
     return system.wrap()
 
 
@@ -2093,8 +2409,12 @@ def _wrap_clauses_sys(system, grid, fail, ret='kw', seps=0.0):
                     f'left the atoms at {system.atoms.view["pos"].tolist()}')
     Vi = _inv(V)
     pbc = [bool(p) for p in before['pbc']]
-    old = [_fv(p) for p in before['props']['pos']]
-    sold = [_rel(p, V, Vi, o) for p in old]
+    P0 = before['props']['pos']
+    natoms = len(P0)
+    big = natoms > BIG_N             # large system: every row screened in extended precision, exact on flagged + sampled rows
+    rows = _sample_rows(natoms) if big else list(range(natoms))
+    old = {i: _fv(P0[i]) for i in rows}
+    sold = {i: _rel(old[i], V, Vi, o) for i in rows}
     nV = _normV(before['vects'])
     omax = max(abs(float(x)) for x in before['origin'])
     kap = _kappa(V)
@@ -2103,9 +2423,12 @@ def _wrap_clauses_sys(system, grid, fail, ret='kw', seps=0.0):
         got = _call_wrap(system, ret)
     except Exception as e:  # noqa
         return fail('wrap:raises', f'wrap raised {type(e).__name__}: {e}')
-    new = [_fv(p) for p in system.atoms.view['pos']]
-    if ret in ('kw', 'pos'):
-        if not isinstance(got, np.ndarray) or got.shape != (len(old), 3) or got.dtype.kind not in 'iu':
+    P1 = system.atoms.view['pos']
+    if not isinstance(P1, np.ndarray) or P1.shape != (natoms, 3):
+        return fail('wrap:carried', f'wrap left positions of shape {getattr(P1, "shape", None)} for {natoms} atoms')
+    new = {i: _fv(P1[i]) for i in rows}
+    if ret in WANTS_FLAGS:
+        if not isinstance(got, np.ndarray) or got.shape != (natoms, 3) or got.dtype.kind not in 'iu':
             return fail('wrap:flags-shape', f'image flags are {type(got).__name__} of shape {getattr(got, "shape", None)} '
                         f'dtype {getattr(got, "dtype", None)}')
         own = [system.atoms.view[k] for k in system.atoms.view.keys()] + [_raw_vects(system.box)]
@@ -2116,8 +2439,13 @@ def _wrap_clauses_sys(system, grid, fail, ret='kw', seps=0.0):
         if got is not None:
             return fail('wrap:flags-returned', f'wrap() without return_imageflags returned {type(got).__name__}')
         # flags not asked for: the whole number of old cell vectors nearest to the displacement
-        flags = np.array([[_nearint(x) if pbc[k] else 0 for k, x in enumerate(_vm([a - b for a, b in zip(o_, n_)], Vi))]
-                          for o_, n_ in zip(old, new)], dtype=object).reshape(len(old), 3)
+        if big:
+            flags = np.rint(np.asarray((_ld(P0) - _ld(P1)) @ _ld_fr(Vi), dtype=float)).astype(np.int64)
+            flags[:, [k for k in range(3) if not pbc[k]]] = 0
+        else:
+            flags = np.array([[_nearint(x) if pbc[k] else 0
+                               for k, x in enumerate(_vm([a - b for a, b in zip(old[i], new[i])], Vi))]
+                              for i in rows], dtype=object).reshape(natoms, 3)
     NV, no = _fm(system.box.vects), _fv(system.box.origin)
     if _det(NV) == 0:
         return fail('wrap:box-singular', 'wrap produced a singular cell')
@@ -2127,14 +2455,27 @@ def _wrap_clauses_sys(system, grid, fail, ret='kw', seps=0.0):
     kapN = _kappa(NV)
     nVN = _normV(system.box.vects)
     omaxN = max(abs(float(x)) for x in no)
-    sall = max(max(abs(float(x)) for x in s) for s in sold)
+    sall = max(max(abs(float(x)) for x in s) for s in sold.values())
     # the Box.vects setter zeroes components below 1e-9 of the largest one: when a non-periodic vector is lengthened
     # a small component of any vector may disappear (documented behaviour of the setter, see ASSUMPTIONS); the
     # positions were rebuilt with the old vectors, so they may then be off the new cell by that much
     maxN = max(abs(float(x)) for r in NV for x in r)
     cleaned = any(NV[k][j] == 0 and V[k][j] != 0 for k in range(3) for j in range(3))
     clean = CLEAN * maxN * rinvN * 3 if cleaned else 0.0
-    for i in range(len(old)):
+    if big:
+        # the per-atom clauses below on ALL rows at once, in extended precision (evaluation error ~1e-19 relative, far
+        # below the bounds, exact on the grid); rows that come within half a bound of violating a clause are added to
+        # the rows on which the clauses are then decided exactly
+        scr = _screen_wrap(P0, P1, flags, before, system, Vi, NVi, pbc, grid, seps,
+                           dict(kap=kap, nV=nV, omax=omax, rinv=rinv, kapN=kapN, omaxN=omaxN, rinvN=rinvN, clean=clean))
+        sall = max(sall, scr['sall'])
+        extra = [i for i in scr['rows'] if i not in old]
+        for i in extra:
+            old[i] = _fv(P0[i])
+            sold[i] = _rel(old[i], V, Vi, o)
+            new[i] = _fv(P1[i])
+        rows = sorted(set(rows) | set(extra))
+    for i in rows:
         smax = max(abs(float(x)) for x in sold[i])
         stor = seps * max(abs(float(x)) for x in new[i])          # one rounding of the stored (float32) coordinate
         tol = _ep(kap, smax, nV, omax) + stor
@@ -2203,7 +2544,11 @@ def _wrap_clauses_sys(system, grid, fail, ret='kw', seps=0.0):
     storN = seps * (nVN + omaxN)
     band = (_er(kap, sall, omax, rinv) + _er(kapN, 1.0, omaxN, rinvN) + (CLEAN * maxN * rinvN * 3 if cleaned else 0.0)
             + storN * rinvN)
-    near = any(abs(float(x) - round(float(x))) <= band for p in new for x in _rel(p, NV, NVi, no))
+    if big:
+        sn_all = np.asarray((_ld(P1) - _ld([float(x) for x in no])) @ _ld_fr(NVi), dtype=float)
+        near = bool((np.abs(sn_all - np.rint(sn_all)) <= band * (1 + 1e-9)).any())
+    else:
+        near = any(abs(float(x) - round(float(x))) <= band for p in new.values() for x in _rel(p, NV, NVi, no))
     if not near or (grid and all(pbc)):
         if flags2.any():
             return fail('wrap:not-idempotent', f'second wrap returns non-zero image flags {flags2.tolist()}')
@@ -2273,7 +2618,7 @@ def _min_image_d2(d, V, Vi_np, V_np):
 def _norm_clauses(ctx, case, report=True):
     def fail(key, what):
         if report:
-            ctx.violate(key, what, {'op': 'norm', 'case': case})
+            ctx.violate(key, what, _replay_of('norm', case))
         return key, what
 
     f32 = case.get('posform') == 'f32'
@@ -2290,17 +2635,39 @@ def _norm_clauses(ctx, case, report=True):
     return _norm_clauses_sys(system, fail, ret=case.get('ret', 'kw'), seps=SEPS32 if f32 else 0.0)
 
 
+class _WrongReturn(Exception):
+    """normalize was asked for (system, transformation) and returned something else."""
+
+
 def _call_norm(system, ret):
+    import numpy as np
     import atomman as am
     if ret == 'kw':
-        return system.normalize(return_transform=True)
-    if ret == 'style':
-        return system.normalize('lammps', True)
-    if ret == 'fn':
-        return am.lammps.normalize(system, True)
-    if ret == 'fnnone':
-        return am.lammps.normalize(system), None
-    return system.normalize(), None
+        res = system.normalize(return_transform=True)
+    elif ret == 'style':
+        res = system.normalize('lammps', True)
+    elif ret == 'fn':
+        res = am.lammps.normalize(system, True)
+    elif ret == 'fnnone':
+        res = am.lammps.normalize(system)
+    elif ret == 'int1':
+        res = system.normalize(return_transform=1)
+    elif ret == 'nptrue':
+        res = system.normalize('lammps', np.True_)
+    elif ret == 'fnint1':
+        res = am.lammps.normalize(system, return_transform=1)
+    elif ret == 'int0':
+        res = system.normalize(return_transform=0)
+    elif ret == 'fnnpfalse':
+        res = am.lammps.normalize(system, np.False_)
+    else:
+        res = system.normalize()
+    if ret in NO_TRANSFORM:
+        return res, None
+    if not (isinstance(res, tuple) and len(res) == 2):
+        raise _WrongReturn(f'normalize, asked for the transformation ({ret}: the flag is truthy), returned '
+                           f'{type(res).__name__} instead of (system, transformation)')
+    return res
 
 
 def _norm_clauses_sys(system, fail, ret='kw', seps=0.0):
@@ -2315,6 +2682,8 @@ def _norm_clauses_sys(system, fail, ret='kw', seps=0.0):
         if _det(V) == 0:                         # a singular cell must be refused, and the input left alone
             bad = _same_snap(before, _snap(system))
             return fail('normalize:input-modified', f'normalize refused a singular cell but changed {bad}') if bad else None
+        if isinstance(e, _WrongReturn):
+            return fail('normalize:return', str(e))
         return fail('normalize:raises', f'normalize raised {type(e).__name__}: {e} on a fully periodic system')
     bad = _same_snap(before, _snap(system))
     if bad:
@@ -2407,10 +2776,21 @@ def _norm_clauses_sys(system, fail, ret='kw', seps=0.0):
     Ni = _inv(N)
     rinv = _colsum(Vi)
     omax = max(abs(float(x)) for x in o)
-    old = [_fv(p) for p in before['props']['pos']]
-    newp = [_fv(p) for p in new.atoms.view['pos']]
-    rel0 = [_rel(p, V, Vi, o) for p in old]
-    for i in range(len(old)):
+    P0, P1 = before['props']['pos'], new.atoms.view['pos']
+    natoms = len(P0)
+    if not isinstance(P1, np.ndarray) or P1.shape != (natoms, 3):
+        return fail('normalize:carried', f'normalize returned positions of shape {getattr(P1, "shape", None)} for '
+                    f'{natoms} atoms')
+    big = natoms > BIG_N
+    rows = _sample_rows(natoms) if big else list(range(natoms))
+    if big:
+        # every row screened in extended precision; rows within half a bound of a violation are decided exactly below
+        rows = sorted(set(rows) | set(_screen_norm(P0, P1, [float(x) for x in o], Vi, [float(x) for x in no], Ni, seps,
+                                                   dict(kap=kap, omax=omax, rinv=rinv, sc=sc, cNi=_colsum(Ni)))))
+    old = {i: _fv(P0[i]) for i in rows}
+    newp = {i: _fv(P1[i]) for i in rows}
+    rel0 = {i: _rel(old[i], V, Vi, o) for i in rows}
+    for i in rows:
         s0 = rel0[i]
         s1 = _rel(newp[i], N, Ni, no)
         stol = 4 * _er(kap, max(abs(float(x)) for x in s0), omax, rinv) + seps * 3 * sc * _colsum(Ni) \
@@ -2424,8 +2804,11 @@ def _norm_clauses_sys(system, fail, ret='kw', seps=0.0):
                 return fail('normalize:moved', f'atom {i}: relative coordinate along axis {k} went from {float(s0[k])!r} to '
                             f'{float(s1[k])!r} (not a whole number of cells; rounding bound {stol:.3g})')
     # true nearest-image distances between atoms unchanged (independent of the above: brute force over images)
-    n = len(old)
-    pairs = [(i, j) for i in range(n) for j in range(i + 1, n)][:10]
+    n = natoms
+    if big:      # pairs among the rows evaluated exactly: neighbours in the row order, from the tail of the system first
+        pairs = [(rows[-1 - t], rows[-2 - t]) for t in range(0, min(len(rows) - 1, 30), 3)][:10]
+    else:
+        pairs = [(i, j) for i in range(n) for j in range(i + 1, n)][:10]
     if pairs:
         V0 = _fm(before['vects'])
         V0n, Nn = np.array(before['vects'], dtype=float), np.array(new.box.vects, dtype=float)
@@ -2624,8 +3007,6 @@ def _default_box_clause(ctx):
                     {'op': 'defaults'})
 
 
-RETS_W = ('kw', 'pos', 'none', 'false')
-RETS_N = ('kw', 'style', 'fn', 'none', 'fnnone')
 
 
 def search(ctx, broken):
@@ -2634,12 +3015,12 @@ def search(ctx, broken):
     for it in range(ctx.n(12, 200) * mult):
         for pbc in PBCS:
             case = _grid_case(rng, pbc) if it % 2 == 0 else _float_case(rng, pbc)
-            case['ret'] = RETS_W[it % 4] if it >= 4 else 'kw'
+            case['ret'] = RETS_W_ALL[it % 8] if it >= 4 else 'kw'
             ctx.stats.case('oracle:wrap', _line('wrap', case))
             _wrap_clauses(ctx, case)
     for it in range(ctx.n(60, 1000) * mult):
         case = _grid_case(rng, (True, True, True)) if it % 4 == 0 else _float_case(rng, (True, True, True))
-        case['ret'] = RETS_N[it % 5] if it >= 10 else 'kw'
+        case['ret'] = RETS_N_ALL[it % 10] if it >= 10 else 'kw'
         ctx.stats.case('oracle:normalize', _line('norm', case))
         _norm_clauses(ctx, case)
     for it in range(ctx.n(16, 120) * mult):
@@ -2655,7 +3036,7 @@ def search(ctx, broken):
     for it in range(ctx.n(36, 400) * mult):
         cell = (_extreme_cell(rng, it % 3, (it // 3) % 2 == 0), 'extreme')
         case = _float_case(rng, (True, True, True), cell=cell, far=it % 4 == 0)
-        case['ret'] = RETS_N[it % 5]
+        case['ret'] = RETS_N_ALL[it % 10]
         ctx.stats.case('oracle:normalize:extreme-angle', _line('norm', case))
         _norm_clauses(ctx, case)
         if it % 3 == 0:
@@ -2696,7 +3077,7 @@ def search(ctx, broken):
         ctx.stats.case('oracle:units', _line('wrap', case))
         _env_clauses(ctx, case)
     for it in range(ctx.n(150, 2500) * mult):
-        h = _gen_hist(rng, 'grid' if it % 3 == 0 else 'float')
+        h = _flag_forms(_gen_hist(rng, 'grid' if it % 3 == 0 else 'float'), it)
         ctx.stats.case('oracle:history', (_hist_name(h), _line('hist', h['case'])))
         try:
             _hist_clauses(ctx, h)
@@ -2709,6 +3090,7 @@ def search(ctx, broken):
     for it in range(ctx.n(80, 1000) * mult):
         h = _gen_pbc_hist(rng, 'grid' if it % 2 == 0 else 'float',
                           cell=(_extreme_cell(rng), 'extreme') if it % 10 == 9 else None)
+        h = _flag_forms(h, it // 2)
         ctx.stats.case('oracle:history:pbc-in-place', (_hist_name(h), _line('hist', h['case'])))
         try:
             _hist_clauses(ctx, h)
@@ -2717,12 +3099,32 @@ def search(ctx, broken):
         except Exception as e:  # noqa
             ctx.violate('history:degenerate-state', f'history {_hist_name(h)}: the object reached a state on which the '
                         f'clauses cannot be evaluated ({type(e).__name__}: {e})', {'op': 'hist', 'hist': _pub(h)})
+    # counts and thresholds: large systems (sizes around every power of two, one of ~70 000 and one of ~270 000 atoms per
+    # quick run), every row screened, through wrap (any periodicity) and through both entry points of normalize
+    sizes = _big_sizes(rng, ctx.thorough)
+    for it, n in enumerate(sizes):
+        regime = 'grid' if (it + ctx.seed) % 3 == 0 else 'float'
+        pbc = (True, True, True) if it % 2 == 0 else rng.choice(PBCS)
+        # how far out the atoms are (whole cells): every value in turn; the systems above 60 000 atoms alternately have
+        # them up to 70 000 cells out in the wrap case / in the normalize case
+        cw = 70000 if n > 60000 and it % 2 == 0 else BIG_CELLS[(it + ctx.seed) % len(BIG_CELLS)]
+        cn = 70000 if n > 60000 and it % 2 == 1 else BIG_CELLS[(it + ctx.seed + 2) % len(BIG_CELLS)]
+        spec = _big_spec(rng, n, regime, pbc, cw)
+        case = _big_case(spec)
+        case['ret'] = RETS_W_ALL[it % 8] if n < 200000 else 'kw'
+        ctx.stats.case('oracle:wrap:big', _big_label('wrap', spec))
+        _wrap_clauses(ctx, case)
+        spec = _big_spec(rng, n, 'float' if regime == 'grid' and it % 2 else regime, (True, True, True), cn)
+        case = _big_case(spec)
+        case['ret'] = RETS_N_ALL[it % 10]
+        ctx.stats.case('oracle:normalize:big', _big_label('norm', spec))
+        _norm_clauses(ctx, case)
     ctx.extra['bound_used'] = {k: round(v, 4) for k, v in sorted(MARGIN.items())}
 
 
 def replay(ctx, payload):
     r = payload.get('replay') or {}
-    cases = [r] if (r.get('case') or r.get('hist') or r.get('op') == 'defaults') else \
+    cases = [r] if (r.get('case') or r.get('hist') or r.get('big') or r.get('op') == 'defaults') else \
         [d for d in payload.get('disagreements', []) if d and (d.get('case') or d.get('hist'))]
     if not cases:
         search(ctx, True)
@@ -2738,6 +3140,11 @@ def replay(ctx, payload):
                     print('replay: model/implementation disagree:', d.what)
             continue
         case = r.get('case')
+        if r.get('big'):
+            case = _big_case(r['big'])
+            res = (_wrap_clauses if r.get('op') == 'wrap' else _norm_clauses)(ctx, case)
+            print('replay', _big_label(r.get('op'), r['big']), '->', res or 'all clauses hold')
+            continue
         if r.get('op') == 'defaults':
             _default_box_clause(ctx)
             print('replay default box ->', [v.what for v in ctx.violations] or 'not shared')
